@@ -15,9 +15,9 @@
 (*   string   [t |-> "str"|"unt"|"uri", s]   s = sequence of code points   *)
 (*   boolean  [t |-> "bool", b]                                            *)
 (*   QName    [t |-> "qn", ns, p, l, lex]    (namespace, prefix, local)    *)
-(*   date..   [t |-> "date"|"dt"|"time", f, lex]  f = field tuple; all     *)
-(*            values WITHOUT timezone (one implicit timezone: the order is *)
-(*            the lexicographic order of the fields)                       *)
+(*   date..   [t |-> "date"|"dt"|"time"|"gy".., dn, s, us, tz, lex]  a    *)
+(*            point of the timeline given by day number, second of the day,*)
+(*            microseconds and timezone offset (minutes, or NoTZ)          *)
 (*   duration [t |-> "ymd"|"dtd"|"dur", mo, se, lex]  months, se = <<whole *)
 (*            seconds, microseconds>> (the finest resolution of the        *)
 (*            lexical space the library keeps); date/time field tuples end *)
@@ -45,9 +45,15 @@ Uri(s)  == [t |-> "uri", s |-> s]
 Bool(b) == [t |-> "bool", b |-> b]
 QN(ns, p, l) == [t |-> "qn", ns |-> ns, p |-> p, l |-> l,
                  lex |-> IF p = <<>> THEN l ELSE p \o <<58>> \o l]
-Date(f, lex) == [t |-> "date", f |-> f, lex |-> lex]
-DT(f, lex)   == [t |-> "dt", f |-> f, lex |-> lex]
-Time(f, lex) == [t |-> "time", f |-> f, lex |-> lex]
+(* date/time values: dn = day number relative to 2000-01-01 (a date, the date part of a dateTime; 0 for
+   a time), s = second of the day, us = microseconds, tz = timezone offset in minutes or NoTZ.
+   g* values (gYear gYearMonth gMonth gMonthDay gDay): dn = day number of their starting instant
+   relative to the reference point of the type (calendar arithmetic is property C11's business) *)
+NoTZ == 9999
+TP(t, dn, sec, us, tz, lex) == [t |-> t, dn |-> dn, s |-> sec, us |-> us, tz |-> tz, lex |-> lex]
+Date(dn, lex)       == TP("date", dn, 0, 0, NoTZ, lex)
+DT(dn, sec, us, lex) == TP("dt", dn, sec, us, NoTZ, lex)
+Time(sec, us, lex)  == TP("time", 0, sec, us, NoTZ, lex)
 YMD(mo, lex)     == [t |-> "ymd", mo |-> mo, se |-> <<0, 0>>, lex |-> lex]
 DTD(se, lex)     == [t |-> "dtd", mo |-> 0, se |-> se, lex |-> lex]
 Dur(mo, se, lex) == [t |-> "dur", mo |-> mo, se |-> se, lex |-> lex]
@@ -58,6 +64,8 @@ Err(c)  == [t |-> "err", code |-> c]
 
 IsNumT(t)  == t \in {"int", "dec", "flt", "dbl"}
 IsStrT(t)  == t \in {"str", "unt", "uri"}          \* EBV by length
+IsTimeT(t) == t \in {"date", "dt", "time"}
+IsGT(t)    == t \in {"gy", "gym", "gm", "gmd", "gd"}
 IsDurT(t)  == t \in {"ymd", "dtd", "dur"}
 IsNaN(v)   == v.k = "nan"
 IsZero(v)  == v.k = "fin" /\ v.n = 0
@@ -123,11 +131,11 @@ Uris     == {Uri(S_abc), Uri(S_abd)}
 Bools    == {Bool(TRUE), Bool(FALSE)}
 QNa   == QN(<<>>, <<>>, S_a)      QNb == QN(<<>>, <<>>, S_b)     QNxa == QN(S_xsns, S_xs, S_a)
 QNabc == QN(<<>>, <<>>, S_abc)    \* only a cast result, not an operand
-Date1 == Date(<<2000, 1, 1>>, S_date1)                 Date2 == Date(<<2000, 1, 2>>, S_date2)
-DT1   == DT(<<2000, 1, 1, 0, 0, 0, 0>>, S_dt1)         DT2   == DT(<<2000, 1, 1, 12, 0, 0, 0>>, S_dt2)
-DT1a  == DT(<<2000, 1, 1, 0, 0, 0, 400>>, S_dt1a)      DT1b  == DT(<<2000, 1, 1, 0, 0, 0, 700>>, S_dt1b)   \* differ below 1 ms
-Time1 == Time(<<0, 0, 0, 0>>, S_time1)                 Time2 == Time(<<12, 0, 0, 0>>, S_time2)
-Time1a == Time(<<0, 0, 0, 400>>, S_time1a)             Time1b == Time(<<0, 0, 0, 700>>, S_time1b)
+Date1 == Date(0, S_date1)                 Date2 == Date(1, S_date2)
+DT1   == DT(0, 0, 0, S_dt1)               DT2   == DT(0, 43200, 0, S_dt2)
+DT1a  == DT(0, 0, 400, S_dt1a)            DT1b  == DT(0, 0, 700, S_dt1b)         \* differ below 1 ms
+Time1 == Time(0, 0, S_time1)              Time2 == Time(43200, 0, S_time2)
+Time1a == Time(0, 400, S_time1a)          Time1b == Time(0, 700, S_time1b)
 Y1M == YMD(1, S_P1M)   Y1Y == YMD(12, S_P1Y)   YN1M == YMD(-1, S_mP1M)   Y0 == YMD(0, S_P0M)
 T0  == DTD(<<0, 0>>, S_PT0S)  T1D == DTD(<<86400, 0>>, S_P1D)   T36H == DTD(<<129600, 0>>, S_P1DT12H)
 T400us == DTD(<<0, 400>>, S_PT400us)   T700us == DTD(<<0, 700>>, S_PT700us)     \* PT0.0004S, PT0.0007S: equal up to the millisecond
@@ -140,10 +148,112 @@ Others == {QNa, QNb, QNxa, Date1, Date2, DT1, DT2, DT1a, DT1b, Time1, Time2, Tim
 Atoms  == Numerics \cup Strings \cup Untypeds \cup Uris \cup Bools \cup Others
 N1   == Node(S_1)     Nabc == Node(S_abc)
 Nodes == {N1, Nabc}
-Items == Atoms \cup Nodes
+
+---------------------------------------------------------------------------
+(* EXTENSION UNIVERSE.  These items are compared only with selected partners (Partner below), so that
+   the number of operand pairs stays linear in their number.
+   TzItems: date/time values with a timezone -- zero hour field with minutes of both signs (+00:30
+   -00:30 -00:01), half hours, the extremes +14:00 / -14:00, Z -- chosen so that many denote the SAME
+   instant (2000-01-01T12:00:00Z); g* values without / with timezones.  Partners: the values of the
+   same type.  Values without timezone take the implicit timezone of the dynamic context (ImplicitTZ,
+   set by the binding through the `timezone` argument).
+   WsItems: xs:untypedAtomic values and untyped nodes whose lexical form is padded with XML white
+   space (space, tab, CR, LF, mixtures).  Partners: one value of every type an untypedAtomic is cast
+   to, plus strings/untyped (where the white space is significant). *)
+DTzZ == TP("dt", 0, 43200, 0, 0, <<50, 48, 48, 48, 45, 48, 49, 45, 48, 49, 84, 49, 50, 58, 48, 48, 58, 48, 48, 90>>)   \* xs:dateTime("2000-01-01T12:00:00Z")
+DTzP30 == TP("dt", 0, 45000, 0, 30, <<50, 48, 48, 48, 45, 48, 49, 45, 48, 49, 84, 49, 50, 58, 51, 48, 58, 48, 48, 43, 48, 48, 58, 51, 48>>)   \* xs:dateTime("2000-01-01T12:30:00+00:30")
+DTzM30 == TP("dt", 0, 41400, 0, -30, <<50, 48, 48, 48, 45, 48, 49, 45, 48, 49, 84, 49, 49, 58, 51, 48, 58, 48, 48, 45, 48, 48, 58, 51, 48>>)   \* xs:dateTime("2000-01-01T11:30:00-00:30")
+DTzM30b == TP("dt", 0, 43200, 0, -30, <<50, 48, 48, 48, 45, 48, 49, 45, 48, 49, 84, 49, 50, 58, 48, 48, 58, 48, 48, 45, 48, 48, 58, 51, 48>>)   \* xs:dateTime("2000-01-01T12:00:00-00:30")
+DTzM01 == TP("dt", 0, 43140, 0, -1, <<50, 48, 48, 48, 45, 48, 49, 45, 48, 49, 84, 49, 49, 58, 53, 57, 58, 48, 48, 45, 48, 48, 58, 48, 49>>)   \* xs:dateTime("2000-01-01T11:59:00-00:01")
+DTzP530 == TP("dt", 0, 63000, 0, 330, <<50, 48, 48, 48, 45, 48, 49, 45, 48, 49, 84, 49, 55, 58, 51, 48, 58, 48, 48, 43, 48, 53, 58, 51, 48>>)   \* xs:dateTime("2000-01-01T17:30:00+05:30")
+DTzM530 == TP("dt", 0, 23400, 0, -330, <<50, 48, 48, 48, 45, 48, 49, 45, 48, 49, 84, 48, 54, 58, 51, 48, 58, 48, 48, 45, 48, 53, 58, 51, 48>>)   \* xs:dateTime("2000-01-01T06:30:00-05:30")
+DTzP14 == TP("dt", 1, 7200, 0, 840, <<50, 48, 48, 48, 45, 48, 49, 45, 48, 50, 84, 48, 50, 58, 48, 48, 58, 48, 48, 43, 49, 52, 58, 48, 48>>)   \* xs:dateTime("2000-01-02T02:00:00+14:00")
+DTzM14 == TP("dt", -1, 79200, 0, -840, <<49, 57, 57, 57, 45, 49, 50, 45, 51, 49, 84, 50, 50, 58, 48, 48, 58, 48, 48, 45, 49, 52, 58, 48, 48>>)   \* xs:dateTime("1999-12-31T22:00:00-14:00")
+DzZ == TP("date", 0, 0, 0, 0, <<50, 48, 48, 48, 45, 48, 49, 45, 48, 49, 90>>)   \* xs:date("2000-01-01Z")
+DzP30 == TP("date", 0, 0, 0, 30, <<50, 48, 48, 48, 45, 48, 49, 45, 48, 49, 43, 48, 48, 58, 51, 48>>)   \* xs:date("2000-01-01+00:30")
+DzM30 == TP("date", 0, 0, 0, -30, <<50, 48, 48, 48, 45, 48, 49, 45, 48, 49, 45, 48, 48, 58, 51, 48>>)   \* xs:date("2000-01-01-00:30")
+DzM01 == TP("date", 0, 0, 0, -1, <<50, 48, 48, 48, 45, 48, 49, 45, 48, 49, 45, 48, 48, 58, 48, 49>>)   \* xs:date("2000-01-01-00:01")
+DzP530 == TP("date", 0, 0, 0, 330, <<50, 48, 48, 48, 45, 48, 49, 45, 48, 49, 43, 48, 53, 58, 51, 48>>)   \* xs:date("2000-01-01+05:30")
+DzM530 == TP("date", 0, 0, 0, -330, <<50, 48, 48, 48, 45, 48, 49, 45, 48, 49, 45, 48, 53, 58, 51, 48>>)   \* xs:date("2000-01-01-05:30")
+DzP14 == TP("date", 1, 0, 0, 840, <<50, 48, 48, 48, 45, 48, 49, 45, 48, 50, 43, 49, 52, 58, 48, 48>>)   \* xs:date("2000-01-02+14:00")
+DzM14 == TP("date", 0, 0, 0, -840, <<50, 48, 48, 48, 45, 48, 49, 45, 48, 49, 45, 49, 52, 58, 48, 48>>)   \* xs:date("2000-01-01-14:00")
+TzZ == TP("time", 0, 43200, 0, 0, <<49, 50, 58, 48, 48, 58, 48, 48, 90>>)   \* xs:time("12:00:00Z")
+TzP30 == TP("time", 0, 45000, 0, 30, <<49, 50, 58, 51, 48, 58, 48, 48, 43, 48, 48, 58, 51, 48>>)   \* xs:time("12:30:00+00:30")
+TzM30 == TP("time", 0, 41400, 0, -30, <<49, 49, 58, 51, 48, 58, 48, 48, 45, 48, 48, 58, 51, 48>>)   \* xs:time("11:30:00-00:30")
+TzM30b == TP("time", 0, 43200, 0, -30, <<49, 50, 58, 48, 48, 58, 48, 48, 45, 48, 48, 58, 51, 48>>)   \* xs:time("12:00:00-00:30")
+TzM01 == TP("time", 0, 43140, 0, -1, <<49, 49, 58, 53, 57, 58, 48, 48, 45, 48, 48, 58, 48, 49>>)   \* xs:time("11:59:00-00:01")
+TzP530 == TP("time", 0, 63000, 0, 330, <<49, 55, 58, 51, 48, 58, 48, 48, 43, 48, 53, 58, 51, 48>>)   \* xs:time("17:30:00+05:30")
+TzM530 == TP("time", 0, 23400, 0, -330, <<48, 54, 58, 51, 48, 58, 48, 48, 45, 48, 53, 58, 51, 48>>)   \* xs:time("06:30:00-05:30")
+TzP14 == TP("time", 0, 7200, 0, 840, <<48, 50, 58, 48, 48, 58, 48, 48, 43, 49, 52, 58, 48, 48>>)   \* xs:time("02:00:00+14:00")
+TzM14 == TP("time", 0, 79200, 0, -840, <<50, 50, 58, 48, 48, 58, 48, 48, 45, 49, 52, 58, 48, 48>>)   \* xs:time("22:00:00-14:00")
+GgyN == TP("gy", 0, 0, 0, NoTZ, <<50, 48, 48, 48>>)   \* xs:gYear("2000")
+GgyZ == TP("gy", 0, 0, 0, 0, <<50, 48, 48, 48, 90>>)   \* xs:gYear("2000Z")
+GgyM30 == TP("gy", 0, 0, 0, -30, <<50, 48, 48, 48, 45, 48, 48, 58, 51, 48>>)   \* xs:gYear("2000-00:30")
+GgyP30 == TP("gy", 0, 0, 0, 30, <<50, 48, 48, 48, 43, 48, 48, 58, 51, 48>>)   \* xs:gYear("2000+00:30")
+GgymN == TP("gym", 0, 0, 0, NoTZ, <<50, 48, 48, 48, 45, 48, 49>>)   \* xs:gYearMonth("2000-01")
+GgymZ == TP("gym", 0, 0, 0, 0, <<50, 48, 48, 48, 45, 48, 49, 90>>)   \* xs:gYearMonth("2000-01Z")
+GgymM30 == TP("gym", 0, 0, 0, -30, <<50, 48, 48, 48, 45, 48, 49, 45, 48, 48, 58, 51, 48>>)   \* xs:gYearMonth("2000-01-00:30")
+GgymP30 == TP("gym", 0, 0, 0, 30, <<50, 48, 48, 48, 45, 48, 49, 43, 48, 48, 58, 51, 48>>)   \* xs:gYearMonth("2000-01+00:30")
+GgmN == TP("gm", 0, 0, 0, NoTZ, <<45, 45, 48, 49>>)   \* xs:gMonth("--01")
+GgmZ == TP("gm", 0, 0, 0, 0, <<45, 45, 48, 49, 90>>)   \* xs:gMonth("--01Z")
+GgmM30 == TP("gm", 0, 0, 0, -30, <<45, 45, 48, 49, 45, 48, 48, 58, 51, 48>>)   \* xs:gMonth("--01-00:30")
+GgmP30 == TP("gm", 0, 0, 0, 30, <<45, 45, 48, 49, 43, 48, 48, 58, 51, 48>>)   \* xs:gMonth("--01+00:30")
+GgmdN == TP("gmd", 0, 0, 0, NoTZ, <<45, 45, 48, 49, 45, 48, 49>>)   \* xs:gMonthDay("--01-01")
+GgmdZ == TP("gmd", 0, 0, 0, 0, <<45, 45, 48, 49, 45, 48, 49, 90>>)   \* xs:gMonthDay("--01-01Z")
+GgmdM30 == TP("gmd", 0, 0, 0, -30, <<45, 45, 48, 49, 45, 48, 49, 45, 48, 48, 58, 51, 48>>)   \* xs:gMonthDay("--01-01-00:30")
+GgmdP30 == TP("gmd", 0, 0, 0, 30, <<45, 45, 48, 49, 45, 48, 49, 43, 48, 48, 58, 51, 48>>)   \* xs:gMonthDay("--01-01+00:30")
+GgdN == TP("gd", 0, 0, 0, NoTZ, <<45, 45, 45, 48, 49>>)   \* xs:gDay("---01")
+GgdZ == TP("gd", 0, 0, 0, 0, <<45, 45, 45, 48, 49, 90>>)   \* xs:gDay("---01Z")
+GgdM30 == TP("gd", 0, 0, 0, -30, <<45, 45, 45, 48, 49, 45, 48, 48, 58, 51, 48>>)   \* xs:gDay("---01-00:30")
+GgdP30 == TP("gd", 0, 0, 0, 30, <<45, 45, 45, 48, 49, 43, 48, 48, 58, 51, 48>>)   \* xs:gDay("---01+00:30")
+W_1_sp == Unt(<<32, 49, 32>>)   \* xs:untypedAtomic(" 1 ")
+W_1_tab == Unt(<<9, 49, 9>>)   \* xs:untypedAtomic("\t1\t")
+W_1_cr == Unt(<<13, 49, 13>>)   \* xs:untypedAtomic("\r1\r")
+W_1_lf == Unt(<<10, 49, 10>>)   \* xs:untypedAtomic("\n1\n")
+W_1_mix == Unt(<<13, 10, 9, 32, 49, 32, 13, 10>>)   \* xs:untypedAtomic("\r\n\t 1 \r\n")
+W_true_sp == Unt(<<32, 116, 114, 117, 101, 32>>)   \* xs:untypedAtomic(" true ")
+W_true_tab == Unt(<<9, 116, 114, 117, 101, 9>>)   \* xs:untypedAtomic("\ttrue\t")
+W_true_cr == Unt(<<13, 116, 114, 117, 101, 13>>)   \* xs:untypedAtomic("\rtrue\r")
+W_true_lf == Unt(<<10, 116, 114, 117, 101, 10>>)   \* xs:untypedAtomic("\ntrue\n")
+W_true_mix == Unt(<<13, 10, 9, 32, 116, 114, 117, 101, 32, 13, 10>>)   \* xs:untypedAtomic("\r\n\t true \r\n")
+W_date_mix == Unt(<<13, 10, 9, 32, 50, 48, 48, 48, 45, 48, 49, 45, 48, 49, 32, 13, 10>>)   \* xs:untypedAtomic("\r\n\t 2000-01-01 \r\n")
+W_P1M_mix == Unt(<<13, 10, 9, 32, 80, 49, 77, 32, 13, 10>>)   \* xs:untypedAtomic("\r\n\t P1M \r\n")
+W_0A_mix == Unt(<<13, 10, 9, 32, 48, 65, 32, 13, 10>>)   \* xs:untypedAtomic("\r\n\t 0A \r\n")
+W_abc_mix == Unt(<<13, 10, 9, 32, 97, 98, 99, 32, 13, 10>>)   \* xs:untypedAtomic("\r\n\t abc \r\n")
+NWtrue == Node(<<10, 32, 116, 114, 117, 101, 10>>)     \* element <w> with text "\n true\n"
+NW1    == Node(<<13, 10, 9, 32, 49, 32, 13, 10>>)     \* element <x> with text "\r\n\t 1 \r\n"
+NWattr == Node(<<9, 116, 114, 117, 101, 9>>)     \* attribute y/@t = "\ttrue\t"
+(* BigItems: one point where the promotion xs:integer -> xs:double ROUNDS (B.1 type promotion = cast):
+   k = "big", n = offset from 2^53.  2^53 + 1 is not a double; it lies half way between 2^53 and
+   2^53 + 2 and rounds to the even mantissa 2^53 (IEEE 754 round-half-even, XSD double lexical mapping) *)
+Big(t, off) == [t |-> t, k |-> "big", n |-> off, nz |-> FALSE]
+IBig1 == Big("int", 1)        \* 9007199254740993
+DBig0 == Big("dbl", 0)        \* xs:double("9007199254740992")
+S_big1 == <<57, 48, 48, 55, 49, 57, 57, 50, 53, 52, 55, 52, 48, 57, 57, 51>>     \* "9007199254740993"
+UBig1 == Unt(S_big1)
+BigItems == {IBig1, DBig0, UBig1}
+BigPartners == {I1, D1, Db1, DbNaN}
+TzItems == {DTzZ, DTzP30, DTzM30, DTzM30b, DTzM01, DTzP530, DTzM530, DTzP14, DTzM14, DzZ, DzP30, DzM30, DzM01, DzP530, DzM530, DzP14, DzM14, TzZ, TzP30, TzM30, TzM30b, TzM01, TzP530, TzM530, TzP14, TzM14,
+            GgyN, GgyZ, GgyM30, GgyP30, GgymN, GgymZ, GgymM30, GgymP30, GgmN, GgmZ, GgmM30, GgmP30, GgmdN, GgmdZ, GgmdM30, GgmdP30, GgdN, GgdZ, GgdM30, GgdP30}
+WsUntypeds == {W_1_sp, W_1_tab, W_1_cr, W_1_lf, W_1_mix, W_true_sp, W_true_tab, W_true_cr, W_true_lf, W_true_mix, W_date_mix, W_P1M_mix, W_0A_mix, W_abc_mix}
+WsNodes == {NWtrue, NW1, NWattr}
+WsItems == WsUntypeds \cup WsNodes
+WsPartners == {I1, D1, F1, Db1, Bool(TRUE), Bool(FALSE), Date1, DT1, Time1, Y1M, T0, U1M, H0A, X0A, Uri(S_abc), QNa,
+               Str(S_1), Str(S_abc), Unt(S_1), Unt(S_true)}
+ExtAtoms == TzItems \cup WsUntypeds \cup BigItems
+ExtItems == TzItems \cup WsItems \cup BigItems
+ImplicitTZ == 300                        \* +05:00
+Partner(a, b) ==
+  /\ (a \in TzItems \/ b \in TzItems) => a.t = b.t
+  /\ (a \in BigItems) => b \in BigItems \cup BigPartners
+  /\ (b \in BigItems) => a \in BigItems \cup BigPartners
+  /\ (a \in WsItems) => b \in WsPartners
+  /\ (b \in WsItems) => a \in WsPartners
+Items == Atoms \cup Nodes \cup ExtItems
+AllAtoms == Atoms \cup ExtAtoms
 
 (* items that occur in sequences of length >= 2 *)
-SeqItems == {I1, I2, DbNaN, Unt(S_1), Unt(S_abc), Str(S_abc), Bool(TRUE), Date1, N1}
+SeqItems == {I1, I2, DbNaN, Unt(S_1), Unt(S_abc), Str(S_abc), Bool(TRUE), N1}
 SeqItems3 == {I1, I2, Unt(S_1), Unt(S_abc), Str(S_abc), Bool(TRUE)}
 
 ---------------------------------------------------------------------------
